@@ -190,7 +190,7 @@ def replay(ctx, obj):
 
 
 def run(ctx):
-    explore(ctx, ctx.subrng("samp"), ctx.budget(400, 8000))
+    explore(ctx, ctx.subrng("samp"), ctx.budget(1200, 12000))
 
 
 def search(ctx):
